@@ -27,6 +27,13 @@ struct Key {}
     ensures
         final(self).current == old(self).current - 1,
 
+//@ contract key_depth_check ret=r
+    ensures
+        // a dotted key (or header path) with LIMIT or more segments is refused, shorter ones pass unchanged
+        (r is Err) == (k@.len() >= LIMIT),
+        r is Err ==> r->Err_0 is RecursionLimitExceeded,
+        r is Ok ==> r->Ok_0 == k,
+
 //@ postlude
 // O-rec: the limit is a small constant (DESIGN.md section 3: at most 128)
 proof fn lemma_limit_small()
@@ -41,3 +48,4 @@ proof fn lemma_balance(c: usize)
     ensures c + 1 - 1 == c,
 {
 }
+
